@@ -145,7 +145,7 @@ class Sim(object):
     TRACE_KEEP = 4000
 
     def __init__(self, choices, step_cap=20000, vtime_cap=INF, strategy=None,
-                 p_stay=None, p_early=None, keep_trace=True, no_progress_cap=6000):
+                 p_stay=None, p_early=None, keep_trace=True, no_progress_cap=12000):
         self.choices = choices
         self.step_cap = step_cap
         self.vtime_cap = vtime_cap
@@ -411,6 +411,9 @@ class Sim(object):
         # every poller costs steps: with 16 polling workers under a strict-priority schedule the dispatcher gets one step
         # in fifty, so the budget of "steps without progress" grows with the number of live tasks
         live = sum(1 for t in self.tasks if t.state != "done")
+        frac = (self.step - self.last_progress) / float(self.no_progress_cap * max(1, live // 4))
+        if frac > getattr(self, "idle_frac", 0.0):
+            self.idle_frac = frac
         if self.step - self.last_progress > self.no_progress_cap * max(1, live // 4):
             self._finish("no_progress")
             if me.state != "done":
